@@ -159,33 +159,139 @@ static void oracle_pair (const char *op, int hf, const T *f0, const T *f1, int h
 
 /* ------------------------------------------------------------------ floating point oracles */
 static long double ldabs (long double x) { return x < 0 ? -x : x; }
-static void oracle_invert (const T *src, int ret, const T *dst)
+static i128 gcd128 (i128 a, i128 b) { a = iabs (a); b = iabs (b); while (b) { i128 t = a % b; a = b; b = t; } return a; }
+/* the rational num/den (den != 0) in canonical form "n/d": reduced, d > 0 (the form the Lean driver prints a `Rat` in) */
+static void prq (FILE *f, i128 num, i128 den) { if (den < 0) { num = -num; den = -den; } i128 g = gcd128 (num, den); if (g > 1) { num /= g; den /= g; } if (num == 0) den = 1; pr128 (f, num); fputc ('/', f); pr128 (f, den); }
+static i128 cdiv (i128 a, i128 b) { return -fdiv (-a, b); }
+
+/* is the integer v (any power-of-two scaling of a real number) exactly representable as a double? */
+static int dbl_exact (i128 v) { if (v == 0) return 1; unsigned __int128 u = v < 0 ? -(unsigned __int128) v : (unsigned __int128) v; while (!(u & 1)) u >>= 1; return u < ((unsigned __int128) 1 << 53); }
+
+/* pixman_transform_invert against exact rational arithmetic.
+ *   a[] = the 16.16 entries.  Exact cofactors c[k] (units 2^-32), determinant det (units 2^-48) in __int128;
+ *   exact inverse entry k in 16.16 units: x_k = c_k * 2^32 / det; its nearest 16.16 value q_k = floor (x_k + 1/2).
+ * The text written after " | " on the implementation line is the verdict of EXACT arithmetic
+ *   "0 S" singular | "0 O" an entry of the exact inverse outside [-32767, 32767] | "1 q0 .. q8"
+ * which the Lean rational model (Model/MatrixQ.lean) must reproduce literally (checked by checks/C11.py).
+ * The LIBRARY (double arithmetic) is judged against the same exact values within the a-posteriori bound that IEEE
+ * rounding of its own operation sequence allows (u = 2^-53; SP = |m m| + |m m| of a 2x2 minor, SD = sum |m_i0| SP_i):
+ *   |det_fl - det| <= 6 u SD =: kappa |det|;   judged only when kappa < 1/4 (else det_fl may vanish or change sign);
+ *   |x_fl - x_k|  <= E_k := (4/3) (4.1 u SC_k + kappa |c_k|) 2^32 / |det|  + 2^-21   (last term: fl (d * 65536 + 0.5))
+ *   TRUE  required when every |x_k| <= 32767 * 65536 - E_k, FALSE required when some |x_k| > 32767 * 65536 + E_k,
+ *   and a TRUE result must have r_k in [floor (x_k - E_k + 1/2), floor (x_k + E_k + 1/2)].
+ * Exactly singular input: FALSE is REQUIRED when every intermediate of the determinant is exactly representable in
+ * double (then det_fl == 0 exactly); otherwise the outcome is counted, not judged. */
+static const int inv_ta[3] = { 2, 2, 1 }, inv_tb[3] = { 1, 0, 0 };
+static void oracle_invert (const T *src, int ret, const T *dst, FILE *fr)
 {
-    /* exact adjugate and determinant in units of 2^-32 / 2^-48 */
     i128 a[9]; T128 (src, a);
-    i128 c[9];
-    c[0] = a[4] * a[8] - a[5] * a[7]; c[1] = a[2] * a[7] - a[1] * a[8]; c[2] = a[1] * a[5] - a[2] * a[4];
-    c[3] = a[5] * a[6] - a[3] * a[8]; c[4] = a[0] * a[8] - a[2] * a[6]; c[5] = a[2] * a[3] - a[0] * a[5];
-    c[6] = a[3] * a[7] - a[4] * a[6]; c[7] = a[1] * a[6] - a[0] * a[7]; c[8] = a[0] * a[4] - a[1] * a[3];
-    int small = 1; for (int i = 0; i < 9; i++) if (iabs (a[i]) > 65536 * 4) small = 0;   /* all double arithmetic exact */
-    /* det = a0*c0 + a1*c3 + a2*c6 (up to 2^96: fits) */
-    i128 det = a[0] * c[0] + a[1] * c[3] + a[2] * c[6];
-    if (det == 0) { stat ("invert:singular"); if (ret && small) orc ("invert-singular-true", "invert returned TRUE for an exactly singular matrix"); return; }
-    /* inverse entry ij in 16.16 units = c[ij]*2^32/det ; well-conditioned: every |entry| <= 30000.0 */
-    int well = 1; long double inv[9];
-    for (int i = 0; i < 9; i++) { inv[i] = (long double) c[i] * 4294967296.0L / (long double) det; if (ldabs (inv[i]) > 30000.0L * 65536.0L) well = 0; }
-    int over = 0; for (int i = 0; i < 9; i++) if (ldabs (inv[i]) > 32769.0L * 65536.0L) over = 1;
-    if (!ret) { stat ("invert:FALSE"); if (well) orc ("invert-spurious-false", "invert returned FALSE for a well-conditioned regular matrix"); return; }
-    stat ("invert:TRUE");
-    if (over) { orc ("invert-true-on-overflow", "invert returned TRUE although an entry of the inverse exceeds the 16.16 range"); return; }
-    /* A * dst ~ I : |sum_k a_ik d_kj - 2^32 delta_ij| <= (sum_k |a_ik|) * (1/2 + 1/64) units */
+#define A(r, c) a[(r) * 3 + (c)]
+    /* determinant exactly as the code expands it (first column), with the exactness of every intermediate */
+    i128 det = 0, SD = 0; int detexact = 1;
+    for (int i = 0; i < 3; i++) {
+        int ai = inv_ta[i], bi = inv_tb[i];
+        i128 p1 = A (ai, 2) * A (bi, 1), p2 = A (ai, 1) * A (bi, 2), p = p1 - p2, t = A (i, 0) * p;
+        if (!dbl_exact (p1) || !dbl_exact (p2) || !dbl_exact (p) || !dbl_exact (t)) detexact = 0;
+        if (i == 1) t = -t;
+        det += t; if (!dbl_exact (det)) detexact = 0;
+        SD += iabs (A (i, 0)) * (iabs (p1) + iabs (p2));
+    }
+    /* cofactors: entry (j,i) of the result */
+    i128 c[9], SC[9];
+    for (int j = 0; j < 3; j++) for (int i = 0; i < 3; i++) {
+        int ai = inv_ta[i], aj = inv_ta[j], bi = inv_tb[i], bj = inv_tb[j];
+        i128 p1 = A (ai, aj) * A (bi, bj), p2 = A (ai, bj) * A (bi, aj), p = p1 - p2;
+        if ((i + j) & 1) p = -p;
+        c[j * 3 + i] = p; SC[j * 3 + i] = iabs (p1) + iabs (p2);
+    }
+#undef A
+    if (det == 0) {
+        fprintf (fr, " | 0 S\n");
+        stat ("invert:exactly singular"); stat (ret ? "invert:exactly singular -> TRUE" : "invert:exactly singular -> FALSE");
+        if (detexact) { stat ("invert:exactly singular, determinant exact in double");
+            if (ret) orc ("invert-singular-true", "invert returned TRUE for an exactly singular matrix whose determinant is computed exactly in double [exact double determinant]"); }
+        else if (ret) { stat ("invert:exactly singular, determinant inexact in double -> TRUE"); orc ("invert-singular-true-inexact", "invert returned TRUE for an exactly singular 16.16 matrix [inexact double determinant]"); }
+        return;
+    }
+    /* exact verdict */
+    i128 lim = (i128) 32767 * 65536, ad = iabs (det), q[9]; int over = 0;
+    for (int k = 0; k < 9; k++) {
+        i128 num = c[k] * ((i128) 1 << 32); if (det < 0) num = -num;          /* x_k = num / ad */
+        if (iabs (num) > lim * ad) over = 1;
+        q[k] = fdiv (2 * num + ad, 2 * ad);
+    }
+    if (over) fprintf (fr, " | 0 O\n"); else { fprintf (fr, " | 1"); for (int k = 0; k < 9; k++) { fputc (' ', fr); pr128 (fr, q[k]); } fprintf (fr, "\n"); }
+    /* the library within the double rounding bound */
+    const long double u = 1.0L / 9007199254740992.0L;
+    long double kappa = 6.0L * u * (long double) SD / (long double) ad * 1.001L;
+    if (!(kappa < 0.25L)) { stat ("invert:regular, determinant not resolved by double (kappa >= 1/4; counted, not judged)"); stat (ret ? "invert:kappa>=1/4 -> TRUE" : "invert:kappa>=1/4 -> FALSE"); return; }
+    int must_true = 1, must_false = 0, bad = -1; long double worstE = 0; i128 maxdev = 0;
+    long double x[9], E[9];
+    for (int k = 0; k < 9; k++) {
+        i128 num = c[k] * ((i128) 1 << 32); if (det < 0) num = -num;
+        x[k] = (long double) num / (long double) ad;
+        E[k] = (4.0L / 3.0L) * (4.1L * u * (long double) SC[k] + kappa * (long double) iabs (c[k])) * 4294967296.0L / (long double) ad * 1.001L + 1.0L / 2097152.0L + ldabs (x[k]) * 1e-18L;
+        if (E[k] > worstE) worstE = E[k];
+        if (ldabs (x[k]) > (long double) lim - E[k]) must_true = 0;
+        if (ldabs (x[k]) > (long double) lim + E[k]) must_false = 1;
+    }
+    stat (worstE < 0.001L ? "invert:bound E < 0.001 unit" : worstE < 0.5L ? "invert:bound E in [0.001, 0.5) unit" : worstE < 64.0L ? "invert:bound E in [0.5, 64) units" : "invert:bound E >= 64 units");
+    if (!ret) { stat ("invert:regular -> FALSE"); if (must_true) orc ("invert-spurious-false", "invert returned FALSE although every entry of the exact inverse is inside [-32767, 32767] by more than the double rounding bound"); return; }
+    stat ("invert:regular -> TRUE");
+    if (must_false) { orc ("invert-true-on-overflow", "invert returned TRUE although an entry of the exact inverse exceeds 32767.0 by more than the double rounding bound"); return; }
     i128 d[9]; T128 (dst, d);
-    if (!well) { stat ("invert:ill-conditioned(not judged)"); return; }
-    for (int i = 0; i < 3; i++) for (int j = 0; j < 3; j++) {
+    for (int k = 0; k < 9; k++) {
+        /* admissible interval in exact integer arithmetic where E is small (the usual case), long double otherwise */
+        long double lo = floorl (x[k] - E[k] + 0.5L), hi = floorl (x[k] + E[k] + 0.5L);
+        if (E[k] < 0.25L) { i128 qq = q[k]; lo = (long double) qq; hi = (long double) qq;
+            /* the exact rounding may move by one only if x_k + 1/2 is within E of an integer */
+            long double fr2 = x[k] + 0.5L - floorl (x[k] + 0.5L); if (fr2 < E[k] * 1.01L + 1e-9L) lo -= 1; if (1.0L - fr2 < E[k] * 1.01L + 1e-9L) hi += 1; }
+        if ((long double) d[k] < lo || (long double) d[k] > hi) { if (bad < 0) bad = k; }
+        i128 dev = iabs (d[k] - q[k]); if (dev > maxdev) maxdev = dev;
+    }
+    stat (maxdev == 0 ? "invert:TRUE equal to the exact rounding" : maxdev == 1 ? "invert:TRUE within 1 unit of the exact rounding" : "invert:TRUE further than 1 unit from the exact rounding (inside the bound)");
+    if (bad >= 0) orc ("invert-inexact", "invert: entry [%d][%d] differs from the exact inverse by more than the double rounding bound allows", bad / 3, bad % 3);
+    /* A * dst ~ I for well-conditioned input, to the 16.16 resolution (the property's wording) */
+    int well = 1; for (int k = 0; k < 9; k++) if (ldabs (x[k]) > 30000.0L * 65536.0L) well = 0;
+    if (well && worstE < 0.01L) for (int i = 0; i < 3; i++) for (int j = 0; j < 3; j++) {
         i128 p = 0, na = 0; for (int k = 0; k < 3; k++) { p += a[i * 3 + k] * d[k * 3 + j]; na += iabs (a[i * 3 + k]); }
         i128 err = iabs (p - (i == j ? ((i128) 1 << 32) : 0));
         if (err * 64 > na * 33) { orc ("invert-inexact", "src x invert(src) differs from the identity by more than the 16.16 resolution at [%d][%d]", i, j); return; }
     }
+}
+
+/* pixman_f_transform_invert of a 16.16 matrix seen as doubles, against exact rationals: value of entry k = c_k 2^16 / det.
+ * Same error analysis as oracle_invert, relative form: |d_fl - d_k| <= (4/3)(4.1 u SC_k + kappa |c_k|) 2^16 / |det|. */
+static void oracle_f_invert (const T *src, int ret, const pixman_f_transform_t *fi, FILE *fr)
+{
+    i128 a[9]; T128 (src, a);
+#define A(r, c) a[(r) * 3 + (c)]
+    i128 det = 0, SD = 0; int detexact = 1;
+    for (int i = 0; i < 3; i++) { int ai = inv_ta[i], bi = inv_tb[i];
+        i128 p1 = A (ai, 2) * A (bi, 1), p2 = A (ai, 1) * A (bi, 2), p = p1 - p2, t = A (i, 0) * p;
+        if (!dbl_exact (p1) || !dbl_exact (p2) || !dbl_exact (p) || !dbl_exact (t)) detexact = 0;
+        if (i == 1) t = -t;
+        det += t; if (!dbl_exact (det)) detexact = 0; SD += iabs (A (i, 0)) * (iabs (p1) + iabs (p2)); }
+    i128 c[9], SC[9];
+    for (int j = 0; j < 3; j++) for (int i = 0; i < 3; i++) { int ai = inv_ta[i], aj = inv_ta[j], bi = inv_tb[i], bj = inv_tb[j];
+        i128 p1 = A (ai, aj) * A (bi, bj), p2 = A (ai, bj) * A (bi, aj), p = p1 - p2; if ((i + j) & 1) p = -p; c[j * 3 + i] = p; SC[j * 3 + i] = iabs (p1) + iabs (p2); }
+#undef A
+    if (det == 0) { fprintf (fr, " | 0 S\n"); stat (ret ? "f_invert:exactly singular -> TRUE" : "f_invert:exactly singular -> FALSE");
+        if (detexact && ret) orc ("f-invert-singular-true", "f_transform_invert returned TRUE for an exactly singular matrix whose determinant is computed exactly in double [exact double determinant]");
+        return; }
+    fprintf (fr, " | 1"); for (int k = 0; k < 9; k++) { fputc (' ', fr); prq (fr, c[k] * 65536, det); } fprintf (fr, "\n");
+    const long double u = 1.0L / 9007199254740992.0L; i128 ad = iabs (det);
+    long double kappa = 6.0L * u * (long double) SD / (long double) ad * 1.001L;
+    if (detexact && !ret) orc ("f-invert-spurious-false", "f_transform_invert returned FALSE for a regular matrix whose determinant is computed exactly in double");
+    if (!(kappa < 0.25L)) { stat ("f_invert:regular, kappa >= 1/4 (counted, not judged)"); return; }
+    if (!ret) { orc ("f-invert-spurious-false", "f_transform_invert returned FALSE although the determinant is resolved by double arithmetic (kappa < 1/4)"); return; }
+    long double worst = 0;
+    for (int k = 0; k < 9; k++) { long double x = (long double) (det < 0 ? -c[k] : c[k]) * 65536.0L / (long double) ad;
+        long double E = (4.0L / 3.0L) * (4.1L * u * (long double) SC[k] + kappa * (long double) iabs (c[k])) * 65536.0L / (long double) ad * 1.001L + ldabs (x) * 1e-18L;
+        long double dev = ldabs ((long double) fi->m[k / 3][k % 3] - x);
+        if (dev > E) { orc ("f-invert-inexact", "f_transform_invert: entry [%d][%d] differs from the exact inverse by more than the double rounding bound", k / 3, k % 3); return; }
+        if (x != 0 && dev / ldabs (x) > worst) worst = dev / ldabs (x); }
+    stat (worst <= 2.0L * u ? "f_invert:TRUE within 2 ulp of the exact inverse" : worst <= 1024.0L * u ? "f_invert:TRUE within 2^10 ulp" : "f_invert:TRUE further (inside the bound)");
 }
 
 /* ------------------------------------------------------------------ one request */
@@ -303,8 +409,8 @@ static void exec_line (char *line, FILE *fr)
     } else if (!strcmp (op, "invert")) {
         T d; getT (&t); if (g_bad) goto bad; d = t;
         int ret = pixman_transform_invert (&d, &t);
-        if (ret) { fprintf (fr, "1 "); prT (fr, &d); fprintf (fr, "\n"); } else fprintf (fr, "0\n");
-        oracle_invert (&t, ret, &d); stat ("op:invert");
+        if (ret) { fprintf (fr, "1 "); prT (fr, &d); } else fprintf (fr, "0");
+        oracle_invert (&t, ret, &d, fr); stat ("op:invert");
     } else if (!strcmp (op, "f_from")) {      /* pixman_transform_from_pixman_f_transform on one value */
         double d = getd (); if (g_bad) goto bad;
         pixman_f_transform_t ft; pixman_f_transform_init_identity (&ft); ft.m[1][2] = d;
@@ -322,11 +428,10 @@ static void exec_line (char *line, FILE *fr)
         fprintf (fr, "%d\n", ok); if (!ok) orc ("to-f-inexact", "f_transform_from_pixman_transform is not exact"); stat ("op:f_to");
     } else if (!strcmp (op, "f_invert")) {    /* double inverse of a fixed matrix seen as doubles: A*inv ~ I */
         getT (&t); if (g_bad) goto bad; pixman_f_transform_t ft, fi; pixman_f_transform_from_pixman_transform (&ft, &t);
-        int ret = pixman_f_transform_invert (&fi, &ft); fprintf (fr, "%d", ret); if (ret) for (int i = 0; i < 9; i++) { fprintf (fr, " "); prd (fr, fi.m[i / 3][i % 3]); } fprintf (fr, "\n");
+        int ret = pixman_f_transform_invert (&fi, &ft); fprintf (fr, "%d", ret); if (ret) for (int i = 0; i < 9; i++) { fprintf (fr, " "); prd (fr, fi.m[i / 3][i % 3]); }
+        oracle_f_invert (&t, ret, &fi, fr);
         i128 a[9]; T128 (&t, a); i128 det = a[0] * (a[4] * a[8] - a[5] * a[7]) - a[1] * (a[3] * a[8] - a[5] * a[6]) + a[2] * (a[3] * a[7] - a[4] * a[6]);
         int small = 1; for (int i = 0; i < 9; i++) if (iabs (a[i]) > 65536 * 4) small = 0;
-        if (det == 0 && small && ret) orc ("f-invert-singular-true", "f_transform_invert returned TRUE for an exactly singular matrix");
-        if (det != 0 && small && !ret) orc ("f-invert-spurious-false", "f_transform_invert returned FALSE for a regular matrix");
         if (ret && det != 0 && small) { pixman_f_transform_t p; pixman_f_transform_multiply (&p, &ft, &fi);
             long double scale = 0; for (int i = 0; i < 9; i++) { long double m = ldabs (fi.m[i / 3][i % 3]); if (m > scale) scale = m; }
             for (int i = 0; i < 9; i++) if (ldabs ((long double) p.m[i / 3][i % 3] - ((i % 4) ? 0 : 1)) > 1e-12L * (1 + scale) * 64) { orc ("f-invert-inexact", "f_transform_invert: A x inv(A) is not the identity to double precision"); break; } }
@@ -339,7 +444,12 @@ static void exec_line (char *line, FILE *fr)
         pixman_f_transform_point_3d (&ft, &f3);
         int ok3 = 1; for (int j = 0; j < 3; j++) if (ldabs ((long double) f3.v[j] - s[j]) > 1e-15L * (mag[j] + 1e-300L) * 8) ok3 = 0;
         int ret = pixman_f_transform_point (&ft, &fv);
-        fprintf (fr, "%d %d\n", ret, ok3);
+        fprintf (fr, "%d %d | ", ret, ok3);
+        { /* exact rational verdict (Lean model Model/MatrixQ.lean must print the same text): the three products, then the quotient */
+            i128 a9[9]; T128 (&t, a9); i128 vv[3], es[3]; char *sv[3] = { g_tok[10], g_tok[11], g_tok[12] }; for (int i = 0; i < 3; i++) vv[i] = (int32_t) strtoll (sv[i], 0, 10);
+            for (int j = 0; j < 3; j++) es[j] = a9[j * 3] * vv[0] + a9[j * 3 + 1] * vv[1] + a9[j * 3 + 2] * vv[2];     /* units 2^-32 */
+            for (int j = 0; j < 3; j++) { prq (fr, es[j], (i128) 1 << 32); fputc (' ', fr); }
+            if (es[2] == 0) fprintf (fr, "; 0\n"); else { fprintf (fr, "; 1 "); prq (fr, es[0], es[2]); fputc (' ', fr); prq (fr, es[1], es[2]); fprintf (fr, " 1/1\n"); } }
         if (!ok3) orc ("f-point3d", "f_transform_point_3d differs from the exact product beyond double rounding");
         if ((s[2] == 0) != (ret == 0) && mag[2] == ldabs (s[2])) orc ("f-point-false", "f_transform_point: FALSE iff w = 0 violated");
         if (ret && mag[2] == ldabs (s[2]) && s[2] != 0) for (int j = 0; j < 2; j++) { long double q = s[j] / s[2];
@@ -348,8 +458,28 @@ static void exec_line (char *line, FILE *fr)
     } else if (!strcmp (op, "f_bounds")) {
         pixman_box16_t b, b0; getT (&t); b.x1 = geti (); b.y1 = geti (); b.x2 = geti (); b.y2 = geti (); if (g_bad) goto bad; b0 = b;
         pixman_f_transform_t ft; pixman_f_transform_from_pixman_transform (&ft, &t);
-        int ret = pixman_f_transform_bounds (&ft, &b); fprintf (fr, "%d %d %d %d %d\n", ret, b.x1, b.y1, b.x2, b.y2);
+        int ret = pixman_f_transform_bounds (&ft, &b); fprintf (fr, "%d %d %d %d %d | ", ret, b.x1, b.y1, b.x2, b.y2);
         int cx[4] = { b0.x1, b0.x2, b0.x2, b0.x1 }, cy[4] = { b0.y1, b0.y1, b0.y2, b0.y2 };
+        { /* exact rational verdict: FALSE at the first corner with w = 0, else the smallest integer box around the exact corners */
+            i128 e[4] = { 0, 0, 0, 0 }, lo[4], hi[4]; int eok = 1, tight = 1;
+            for (int i = 0; i < 4 && eok; i++) { i128 cv[3] = { (i128) cx[i] * 65536, (i128) cy[i] * 65536, 65536 }, s3[3]; rowsum (&t, cv, s3);
+                if (s3[2] == 0) { eok = 0; break; }
+                i128 v4[4] = { fdiv (s3[0], s3[2]), fdiv (s3[1], s3[2]), cdiv (s3[0], s3[2]), cdiv (s3[1], s3[2]) };
+                /* the library computes x, y, w exactly (48-bit products of a 16.16 entry and an int16) and rounds only the quotient:
+                 * its floor/ceil may differ from the exact one only if the quotient is within 2^-51 |q| of an integer */
+                long double qx = (long double) s3[0] / (long double) s3[2], qy = (long double) s3[1] / (long double) s3[2], tx = ldabs (qx) * 4.5e-16L + 1e-300L, ty = ldabs (qy) * 4.5e-16L + 1e-300L;
+                i128 l4[4] = { (i128) floorl (qx - tx), (i128) floorl (qy - ty), (i128) ceill (qx - tx), (i128) ceill (qy - ty) };
+                i128 h4[4] = { (i128) floorl (qx + tx), (i128) floorl (qy + ty), (i128) ceill (qx + tx), (i128) ceill (qy + ty) };
+                if (ldabs (qx) > 30000 || ldabs (qy) > 30000) tight = 0;
+                for (int k = 0; k < 4; k++) { int mn = k < 2;
+                    if (i == 0) { e[k] = v4[k]; lo[k] = l4[k]; hi[k] = h4[k]; }
+                    else { if (mn ? v4[k] < e[k] : v4[k] > e[k]) e[k] = v4[k]; if (mn ? l4[k] < lo[k] : l4[k] > lo[k]) lo[k] = l4[k]; if (mn ? h4[k] < hi[k] : h4[k] > hi[k]) hi[k] = h4[k]; } } }
+            if (!eok) fprintf (fr, "0\n"); else { fprintf (fr, "1"); for (int k = 0; k < 4; k++) { fputc (' ', fr); pr128 (fr, e[k]); } fprintf (fr, "\n"); }
+            if (eok != (ret != 0)) orc ("f-bounds", "f_transform_bounds: return value differs from the exact one (FALSE iff a corner has w = 0)");
+            else if (ret && tight) { int lb[4] = { b.x1, b.y1, b.x2, b.y2 }; int same = 1;
+                for (int k = 0; k < 4; k++) { if (lb[k] < lo[k] || lb[k] > hi[k]) { orc ("f-bounds", "f_transform_bounds: box edge %d is not the floor/ceil of the exact corner (beyond the rounding of one division)", k); break; } if (lb[k] != e[k]) same = 0; }
+                stat (same ? "f_bounds:TRUE equal to the exact box" : "f_bounds:TRUE, an edge differs by the rounding of the quotient"); }
+            else if (ret) stat ("f_bounds:TRUE, |corner| > 30000 (int16 range not checked by the API: not judged)"); }
         int judged = ret;
         if (ret) for (int i = 0; i < 4; i++) { i128 cv[3] = { (i128) cx[i] * 65536, (i128) cy[i] * 65536, 65536 }, s[3]; rowsum (&t, cv, s);
             if (s[2] == 0) continue; long double x = (long double) s[0] / (long double) s[2], y = (long double) s[1] / (long double) s[2];
